@@ -336,7 +336,10 @@ def check_function(fx: FlagCtx, f: FuncInfo, seen: set, label: str, model_tags: 
     own_flags = _flag_vars(f)
     flags = own_flags | _nonlocal_flags(f)
     tnodes = {n.id for n in cfg.nodes if n.kind == "stmt" and _is_flag_set(n.ast, flags)}
-    is_flag_fn = bool(flags)
+    # a helper that answers with literals (`return True` / `return False`) is a flag function too: a write on a path that
+    # ends in `return False` tells the caller "nothing changed"
+    literal_flag = _returns_flag(f) and any(isinstance(r.value, ast.Constant) and isinstance(r.value.value, bool) for r in _returns(f))
+    is_flag_fn = bool(flags) or literal_flag
     for nid, ms in sorted(writes.items()):
         node = cfg.nodes[nid]
         st = node.ast
@@ -457,6 +460,24 @@ def rule_r2(ctx, passes, ef):
 
 
 # ------------------------------------------------------------------------------------ R3
+def shortcircuit_skips(ef, f: FuncInfo):
+    """[(BoolOp, call)] - a call that writes IR state sits in a non-first operand of `or` / `and`: it is not evaluated
+    once the left operand decides (e.g. `modified = modified or self._fix(x)` stops fixing after the first change)."""
+    out = []
+    for n in own_nodes(f.node):
+        if not isinstance(n, ast.BoolOp):
+            continue
+        for operand in n.values[1:]:
+            for c in (x for x in ast.walk(operand) if isinstance(x, ast.Call)):
+                try:
+                    tg, _st = ef._call_targets(f, c)
+                except Exception:
+                    tg = []
+                if any(ef.summary(g).mods for g in tg):
+                    out.append((n, c))
+    return out
+
+
 def rule_r3(ctx, passes, ef):
     funcs: dict[str, FuncInfo] = {}
     for c in passes:
@@ -466,6 +487,19 @@ def rule_r3(ctx, passes, ef):
         if m.name.startswith("onnx_ir.passes.common"):
             for f in m.all_funcs:
                 funcs.setdefault(f.key, f)
+    n_bool = 0
+    for f in funcs.values():
+        if isinstance(f.node, ast.Lambda):
+            continue
+        n_bool += sum(1 for n in own_nodes(f.node) if isinstance(n, ast.BoolOp))
+        for bo, c in shortcircuit_skips(ef, f):
+            ctx.check("R3", f"{f.local}: {norm(bo)[:70]} evaluates its mutating operand unconditionally", False, f, bo,
+                      f"`{norm(c)[:80]}` changes the model but is a later operand of `{'or' if isinstance(bo.op, ast.Or) else 'and'}`: once the left operand "
+                      "decides, the call is skipped - the remaining graphs/functions are not processed although the pass reports success",
+                      how="operands of and/or after the first contain no call whose effect summary writes IR state",
+                      construct=f"short-circuit skips {norm(c)[:60]}")
+    ctx.ob("R3", f"{n_bool} boolean expressions in pass code: no mutating call in a short-circuited operand", True, nontrivial=False,
+           how="effect summaries of calls in later operands of and/or")
     for f in funcs.values():
         if isinstance(f.node, ast.Lambda):
             continue
